@@ -130,11 +130,17 @@ func c12Heavy(rng *rand.Rand) c12Prog {
 		sJump("L", c12Ctr(K, "LT"), rng.Intn(5) > 0)}, suffix)}
 }
 
-// counters kept on the current element (search target: emitted copy and looping traveler share it)
+// counters kept on the current element: the emitted copy and the looping traveler must not share
+// it (finding C12-copy-shares-current). The pass-through steps after the jump delay the emitted
+// copies so that a shared element would be overwritten before it is rendered.
 func c12CurCtr(rng *rand.Rand) c12Prog {
-	K := 2 + rng.Intn(3)
+	K := 3 + rng.Intn(3)
+	delay := ja{}
+	for i := 0; i < 10+rng.Intn(30); i++ {
+		delay = append(delay, sHas(sCond("count", "GTE", 0)))
+	}
 	return c12Prog{"curctr", cat(c12Start(rng), ja{sSet("count", 0), sMark("L"), sInc("count", 1),
-		sJump("L", sCond("count", "LT", K), true), sRender(jm{"g": "_gid", "c": "count"})})}
+		sJump("L", sCond("count", "LT", K), true)}, delay, ja{sRender(jm{"g": "_gid", "c": "count"})})}
 }
 
 func c12Key(p c12Prog, g jm) string {
@@ -192,6 +198,13 @@ func c12Gen(r *Run) {
 			p = c12Nested(rng)
 		}
 		add(p, Pick(rng, graphs), reps)
+	}
+	ncur := 3
+	if thorough {
+		ncur = 12
+	}
+	for i := 0; i < ncur; i++ {
+		add(c12CurCtr(rng), Pick(rng, graphs), reps+1)
 	}
 	nheavy := 2
 	if thorough {
